@@ -10,13 +10,14 @@ Local Open Scope Qc_scope.
 Definition bx_lev (_ : nat) : @level Qc unit := ex_level 2 1 1.
 Definition bx_xf (_ : nat) : @xfer Qc unit := ex_xfer false.
 Definition bx_tstart (p : nat) : Qc := Q2Qc (inject_Z (Z.of_nat p)).
+Definition bx_lend (_ : nat) : @endp Qc := {| erin := true; edcu := false; ew := fun _ => exK0 |}.   (* copy mode: uend = last node *)
 Definition bx_tn (p m : nat) : Qc := tnode Qcplus Qcmult exK1 (bx_tstart p) ex_nodes m.
 Definition bx_sol (u0 : Qc) (p m : nat) : Qc :=
   if Nat.eqb m 0 then u0 else u0 + exK1 * sumf exK0 Qcplus (fun j => ex_Q m j * bx_tn p j) 1 2.
 Definition bx_u0 (p : nat) : Qc := match p with 0%nat => Q2Qc 3 | S _ => bx_sol (Q2Qc 3) 0 2 end.
 Definition bx_R0 (p : nat) : @lvst Qc unit :=
   {| su := fun m _ => bx_sol (bx_u0 p) p m; sf := fun m _ _ => bx_tn p m; stau := fun _ => None;
-     suold := fun _ _ => exK0; sfold := fun _ _ _ => exK0; svalid := true |}.
+     suold := fun _ _ => exK0; sfold := fun _ _ _ => exK0; suend := fun _ => exK0; ssent := false; svalid := true |}.
 
 Example bx_Hlev : forall l, (l < 2)%nat -> level_ok exK0 Qcmult Qcminus ex_eqb false (bx_lev l) /\ (1 <= lM (bx_lev l))%nat.
 Proof. intros l _. split; [apply ex_level_ok | cbn; lia]. Qed.
@@ -38,18 +39,22 @@ Proof.
   - intros m Hm. split; intros; reflexivity.
 Qed.
 
-Example bx_Hchain : forall p, (0 < p < 2)%nat -> forall x, su (bx_R0 p) 0 x = su (bx_R0 (p - 1)) (lM (bx_lev 0)) x.
+Example bx_Hcopy : (1 < 2)%nat -> forall l, (l < 2)%nat -> erin (bx_lend l) && negb (edcu (bx_lend l)) = true.
+Proof. intros _ l _. reflexivity. Qed.
+
+Example bx_Hchain : forall p, (0 < p < 2)%nat -> forall x, su (bx_R0 p) 0 x = end_value exK0 Qcplus Qcmult false bx_lev bx_lend 0 (bx_R0 (p - 1)) x.
 Proof. intros p Hp x. assert (p = 1%nat) by lia. subst p. reflexivity. Qed.
 
 (* the controller's schedule for 2 steps, 2 levels, one sweep per level keeps every fine entry valid ... *)
 Definition bx_ops := pfasst_iteration 2 2 (fun _ => 1%nat) true.
-Notation bx_B := (run_ops exK0 Qcplus Qcmult Qcminus ex_eqb false bx_lev bx_xf bx_tstart bx_ops (init_block exK0 2 bx_R0)).
+Notation bx_B := (run_ops exK0 Qcplus Qcmult Qcminus ex_eqb false bx_lev bx_xf bx_tstart bx_lend bx_ops (init_block exK0 2 bx_R0)).
 Example bx_valid : svalid (bx_B 0%nat 0%nat) = true /\ svalid (bx_B 1%nat 0%nat) = true /\
                    svalid (bx_B 0%nat 1%nat) = true /\ svalid (bx_B 1%nat 1%nat) = true.
 Proof.
-  rewrite !(flags_run_ops exK0 Qcplus Qcmult Qcminus ex_eqb false bx_lev bx_xf bx_tstart bx_ops (init_block exK0 2 bx_R0)
-             (fun p l => match l with 0%nat => Nat.ltb p 2 | S _ => false end))
-    by (intros p [|l]; reflexivity).
+  pose proof (flags_run_ops exK0 Qcplus Qcmult Qcminus ex_eqb false bx_lev bx_xf bx_tstart bx_lend bx_ops (init_block exK0 2 bx_R0)
+                (fun p l => match l with 0%nat => Nat.ltb p 2 | S _ => false end, fun _ _ => false)
+                ltac:(intros p [|l]; split; reflexivity)) as HF.
+  rewrite (proj1 (HF 0%nat 0%nat)), (proj1 (HF 1%nat 0%nat)), (proj1 (HF 0%nat 1%nat)), (proj1 (HF 1%nat 1%nat)).
   vm_compute. repeat split; reflexivity.
 Qed.
 
@@ -57,7 +62,7 @@ Qed.
 Example bx_fixed : forall p, (p < 2)%nat -> same (bx_lev 0) (su (bx_B p 0%nat), sf (bx_B p 0%nat)) (su (bx_R0 p), sf (bx_R0 p)).
 Proof.
   intros p Hp.
-  apply (block_fixed_point_any_schedule exK0 exK1 Qcplus Qcmult Qcminus Qcopp ex_eqb Qcrt ex_eqb_true false bx_lev bx_xf bx_tstart 2 2
-           bx_Hlev bx_Hxf bx_R0 bx_H0 bx_Hchain bx_ops (pfasst_iteration_in_bounds 2 2 _ _) p Hp ltac:(lia)).
+  apply (block_fixed_point_any_schedule exK0 exK1 Qcplus Qcmult Qcminus Qcopp ex_eqb Qcrt ex_eqb_true false bx_lev bx_xf bx_tstart bx_lend 2 2
+           bx_Hlev bx_Hxf bx_Hcopy bx_R0 bx_H0 bx_Hchain bx_ops (pfasst_iteration_in_bounds 2 2 _ _) p Hp ltac:(lia)).
   pose proof bx_valid as (V0 & V1 & _). destruct p as [|[|p]]; [exact V0 | exact V1 | lia].
 Qed.
